@@ -2,6 +2,7 @@
 from ..rules import ok_guarded, sites_reaching, result_tests, bool_tests, return_value_consts, comparisons, origin_pred_call, origin_pred_field
 from ..dataflow import origins, roots
 from . import common as K
+from ..rules import in_cycle as in_cycle_
 
 ADD_ENTRY = "tables::table_builder::TableBuilder::add_entry"
 BLOCK_ADD = "tables::block_builder::BlockBuilder::add_entry"
@@ -332,7 +333,26 @@ def agr1(P, R, L):
         for st in r.blocks[bb]["stmts"]:
             if st["k"] == "assign" and st["rv"]["k"] == "aggregate" and "Range" in (st["rv"].get("adt") or ""):
                 rng.append(origins(r, st["rv"]["ops"][1]))
-    from_filter = bool(rng) and all(os_ and all((o.kind == "call" and "split_first" in (o.name or "")) or (o.kind == "param" and o.name == 3) for o in os_) for os_ in rng)
+    of_filter = lambda o: (o.kind == "call" and "split_first" in (o.name or "")) or (o.kind == "param" and o.name == 3)
+    from_filter = bool(rng) and all(os_ and all(of_filter(o) for o in os_) for os_ in rng)
+    if not rng:
+        # a countdown / while loop instead of a range: the loop is controlled by comparisons inside a cycle
+        ctl = []
+        for c_ in comparisons(r):
+            if in_cycle_(r, c_.bb):
+                for os_ in (c_.lhs_origins(), c_.rhs_origins()):
+                    nc = [o for o in os_ if o.kind not in ("const", "binop", "unop")]
+                    if nc:
+                        ctl.append(nc)
+                    for o in os_:
+                        if o.kind == "binop" and o.extra:
+                            for x in o.extra[1]["rv"]["ops"]:
+                                nc2 = [y for y in origins(r, x) if y.kind not in ("const", "binop", "unop")]
+                                if nc2:
+                                    ctl.append(nc2)
+        uses_cfg = any(any(o.kind == "param" and o.name == 1 and "num_hash_functions" in o.path for o in os_) for os_ in ctl)
+        from_filter = not uses_cfg and any(all(of_filter(o) for o in os_) for os_ in ctl)
+        rng = ctl
     R.check("AGR-1", BLOOM_MATCH + "|probe-count-from-the-filter", from_filter, K.where(r),
             "the number of probes is the one stored in the filter's first byte (a filter written under a different bits_per_key is still read correctly)",
             "loop bounds: %s" % [[(o.kind, o.name, o.path) for o in os_] for os_ in rng])
